@@ -845,7 +845,7 @@ class C06(ParseProp):
                   "right AST, also when written with any optional blank space at every S position (C06_filter_free_partial, "
                   "C06_filter_free_blanks_partial, C06_normalized_paths_partial: the grammar of this run executed symbolically by proved "
                   "rules for the PEG interpreter, every abandoned alternative included, then the model of parser.rs). The whole-language acceptance "
-                  "theorem (every RFC sentence is accepted) is NOT proved: that part rests on the differential run and is named partial. C06_every_string_as_name/_literal_partial: every RFC 9535 string (both quote styles, all escapes, upper/lower-case hex, surrogate pairs), of any length, is accepted as a name selector and as a comparison literal and read as itself.")
+                  "theorem (every RFC sentence is accepted) is NOT proved: that part rests on the differential run and is named partial. C06_every_string_as_name/_literal_partial: every RFC 9535 string (both quote styles, all escapes, upper/lower-case hex, surrogate pairs), of any length, is accepted as a name selector and as a comparison literal and read as itself. C06_every_number_as_literal_partial: every number literal with a fraction or an exponent (all 28 shapes of integer part x fraction x exponent, any digits) is accepted and read as the nearest binary64.")
     level_note = "whole-language round trip not proved (partial); rendered sentences cover all layout choices, escapes, number formats; pest runtime modelled"
     rule = ("sentences rendered from random well-typed ASTs under random layouts (blank space at every S, quote style, every escape form incl. "
             "hex case and surrogate pairs, number spellings, shorthand/bracket), plus fixed RFC examples; a sentence counts when the reference "
